@@ -23,6 +23,7 @@
 #undef private
 #include <functional>
 
+extern "C" mpt::metatype *verif_c_meta_buffer(const mpt::array *);
 using namespace sim;
 using namespace mpt;
 
@@ -268,7 +269,25 @@ struct RefsWorld : World {
 				else if (k == 1) { Sut su(failn); lib[k] = mpt_rawdata_create((op.c & 64) ? 3 : -1); fired = g.fired; }      // with or without a limit of three stages
 				else if (k == 2) { int v = 42; Sut su(failn); lib[k] = metatype::generic::create('i', &v); fired = g.fired; }
 				else if (k == 4 || k == 5) { std::string t(k == 4 ? 5 : 300, 'm'); const char *cs = t.c_str(); value v; v.set('s', &cs); Sut su(failn); lib[k] = mpt_meta_new(&v); fired = g.fired; }
-				else if (k == 6) { CArr a = {0}; { Sut su; mpt_array_append(AR(a), 12, "hello world"); } { Sut su(failn); lib[k] = mpt_meta_buffer(AR(a)); fired = g.fired; } { Sut su; mpt_array_clone(AR(a), 0); } }
+				else if (k == 6 && (op.c & 128)) {
+					// the buffer's counter stands at its maximum (as if that many handles existed): a further holder cannot be counted, so creating an
+					// iterator on it - which means taking a reference - has to fail; an object that claims success without the content hides the refusal
+					CArr a = {0}; { Sut su; mpt_array_append(AR(a), 12, "hello world"); }
+					uintptr_t *cnt = reinterpret_cast<uintptr_t *>(reinterpret_cast<char *>(a.buf) + sizeof(buffer) - 8 * sizeof(void *));
+					if (*cnt != 1) fail("setup", "the counter of a fresh buffer is not where the harness expects it (reads %lx)", (unsigned long) *cnt);
+					*cnt = UINTPTR_MAX;
+					bool cimpl = (op.c & 256) != 0;      // the C implementation (refs_mb.c) or the C++ one that overrides it
+					metatype *m; { Sut su; m = cimpl ? verif_c_meta_buffer(AR(a)) : mpt_meta_buffer(AR(a)); }
+					uintptr_t after = *cnt; *cnt = 1;
+					log.ev("LIB_NEW kind 6 on a buffer whose counter is at its maximum -> %s (counter %lx)", m ? "object" : "null", (unsigned long) after);
+					st.hit("probe:iterator_on_saturated_buffer");
+					if (after != UINTPTR_MAX) fail("counter-wrap", "a buffer counter at its maximum reads %lx after an iterator was created on the buffer", (unsigned long) after);
+					if (m) { struct iovec vec = {0, 0}; int rc; { Sut su; rc = m->convert(MPT_type_toVector('c'), &vec); } size_t got = rc >= 0 ? vec.iov_len : 0; { Sut su; m->unref(); } { Sut su; mpt_array_clone(AR(a), 0); }
+						fail("refusal-hidden", "an iterator created (%s implementation) on a buffer that cannot take another reference reports success and holds %zu of the 12 bytes", cimpl ? "C" : "C++", got); }
+					{ Sut su; mpt_array_clone(AR(a), 0); }
+					break;
+				}
+				else if (k == 6) { CArr a = {0}; { Sut su; mpt_array_append(AR(a), 12, "hello world"); } { Sut su(failn); lib[k] = (op.c & 256) ? verif_c_meta_buffer(AR(a)) : mpt_meta_buffer(AR(a)); fired = g.fired; } { Sut su; mpt_array_clone(AR(a), 0); } }
 				else if (k == 7) { input *in; { Sut su(failn); in = mpt_output_remote(); fired = g.fired; } lib[k] = in ? static_cast<metatype *>(in) : 0; }
 				else if (k == 8) { io::stream::input *in; { Sut su(failn); in = io::stream::input::create(0); fired = g.fired; } lib[k] = in ? static_cast<metatype *>(in) : 0; }
 				else if (k == 9) { mpt::path pp; pp.sep = '.'; pp.assign = 0; { Sut su; mpt_path_set(&pp, "refs.view", -1); } { Sut su(failn); lib[k] = mpt_config_global(&pp); fired = g.fired; } }
